@@ -497,6 +497,8 @@ def run(ctx):
                 cfg.simulation.cloud_model = Simulation.MonoCloud(altitude=2.0)
             cfg.detector.radio.snr_threshold = 0.25
             cfg.detector.optical.enable = k % 5 != 4
+            if k % 4 == 0:
+                cfg.simulation.ionosphere = None  # a run without an ionosphere block (both channels still run)
             sim, log = fullrun.compute(cfg, seed=int(rng.integers(2**31)), freeze=False)
             if log.exception is not None:
                 ctx.exception("raises", "compute() raised", log.exception, {"run": k})
